@@ -1,0 +1,27 @@
+//go:build verif
+
+// Package verifhook provides schedule-perturbation points for the external
+// verification harness (build tag `verif`). A callback installed with Set is
+// invoked at every Point; it may yield or sleep to widen race windows. It
+// never changes what the engine computes.
+package verifhook
+
+import "sync/atomic"
+
+var fn atomic.Pointer[func(string)]
+
+// Set installs (or, with nil, removes) the perturbation callback.
+func Set(f func(site string)) {
+	if f == nil {
+		fn.Store(nil)
+		return
+	}
+	fn.Store(&f)
+}
+
+// Point marks a schedule-sensitive site.
+func Point(site string) {
+	if p := fn.Load(); p != nil {
+		(*p)(site)
+	}
+}
